@@ -2,7 +2,7 @@
 import ipaddress
 ID = "C14"
 LEAN_TARGETS = ["Rsp.Props.C14", "Rsp.Props.C14Tls", "Rsp.Tie.C14"]
-THEOREMS = ["Rsp.Props.C14.prefixmatch_iff", "Rsp.Props.C14.resMatches_eq", "Rsp.Props.C14.findConf_meets_spec",
+THEOREMS = ["Rsp.Props.C14.prefixmatch_iff", "Rsp.Props.C14.prefixmatch_mono", "Rsp.Props.C14.prefixmatch_refl", "Rsp.Props.C14.prefixmatch_symm", "Rsp.Props.C14.prefixmatch_trans", "Rsp.Props.C14.resMatches_eq", "Rsp.Props.C14.findConf_meets_spec",
             "Rsp.Props.C14.no_block_no_conf", "Rsp.Addr.mask_and", "Rsp.Addr.top_bits_iff", "Rsp.Tie.C14.mask_tie",
             "Rsp.Tie.C14.tls_attribution_tie", "Rsp.Tie.C14.dtls_attribution_tie",
             "Rsp.Props.C14.attribute_sound", "Rsp.Props.C14.no_match_no_block", "Rsp.Props.C14.untrusted_no_block", "Rsp.Props.C14.attribute_first",
